@@ -166,7 +166,7 @@ PROP_ASSUMPTIONS = {
     "C14": ["float operands are enumerated concrete values representable at the resolution; error-ignoring mode is out of scope (values unspecified there)"],
     "C15": ["array lengths 1..3 (thorough ..6), 2-D 2x2; single accesses (sequences of accesses follow from whole-array postconditions by composition)"],
     "C16": ["packer schemas enumerated: PackBool, PackIntMod(m) for m in {1,2,5,8,16,100}, a flat and a nested PackList/PackRepeat"],
-    "C17": ["argument / result shapes enumerated (13); the wrapped body is havocked (own events, arbitrary results)"],
+    "C17": ["argument / result shapes enumerated; the wrapped body is havocked (own events, arbitrary results); what a body computes is covered per traced operation by the value facets of the C05 / C14 contracts (plain mode), composed on paper"],
     "C18": ["ASSUMED environment contract: which of sys.exit / sys.excepthook / atexit callbacks CPython invokes per termination mode; each clause is validated by a subprocess probe of the repository's interpreter on every run (observations, not proofs)"],
     "C19": ["absent third-party dependencies (flatbuffers, libsnark, qapgen) are stubbed: only their presence matters to the selection code",
             "pysnark.nobackend always loads"],
@@ -198,7 +198,7 @@ EXPLAIN = {
 }
 
 BOUNDED = {
-    "C18": ["31 subprocess probes (14 termination modes x 2 positions + 3 with autoprove off): observations of the real interpreter"],
+    "C18": ["37 subprocess probes (17 termination modes x 2 positions + 3 with autoprove off): observations of the real interpreter"],
     "C20": ["SHA512_prng(i) == independent reimplementation for i < 32 (concrete comparison)",
             "4 ground instances of the whole permutation against an independent plain-integer Poseidon and the published vectors"],
 }
